@@ -85,6 +85,8 @@ type World struct {
 
 	dbfd *os.File
 	refN int
+	// SkipLedger disables the logical ledger (used by C17 whose databases hold ~1 GiB of payload; only pages are compared).
+	SkipLedger bool
 	// NoFastRef forces every reference image through SQLite's own recovery (used when litestream runs in another
 	// process that may be killed mid-transaction, leaving committed-looking frames the live wal-index does not list).
 	NoFastRef bool
@@ -236,6 +238,11 @@ func Digest(ctx context.Context, db *sql.DB) (int64, string, error) {
 		return 0, "", err
 	}
 	defer conn.ExecContext(ctx, `ROLLBACK`)
+	return DigestOn(ctx, conn)
+}
+
+// DigestOn computes the digest over an existing connection (inside whatever transaction it has open).
+func DigestOn(ctx context.Context, conn *sql.Conn) (int64, string, error) {
 	var v int64
 	if err := conn.QueryRowContext(ctx, `SELECT v FROM _v`).Scan(&v); err != nil {
 		return 0, "", fmt.Errorf("read version: %w", err)
@@ -326,6 +333,9 @@ func DigestFile(ctx context.Context, path string) (int64, string, error) {
 }
 
 func (w *World) recordLedger() error {
+	if w.SkipLedger {
+		return nil
+	}
 	v, d, err := Digest(w.ctx, w.ledgerDB)
 	if err != nil {
 		return fmt.Errorf("ledger: %w", err)
@@ -1110,3 +1120,16 @@ func (w *World) WALFrames() (int, uint32) {
 
 // ReadDB returns the bytes of the live database file through the persistent descriptor.
 func (w *World) ReadDB() ([]byte, error) { return w.readAllFD() }
+
+// Exec runs raw SQL on application connection 0 (no version stamp, no ledger entry).
+func (w *World) Exec(q string, args ...any) error {
+	_, err := w.conns[0].conn.ExecContext(w.ctx, q, args...)
+	return err
+}
+
+// QueryInt runs a single-value integer query on application connection 0.
+func (w *World) QueryInt(q string) (int64, error) {
+	var n int64
+	err := w.conns[0].conn.QueryRowContext(w.ctx, q).Scan(&n)
+	return n, err
+}
